@@ -1,3 +1,4 @@
+import Sparrow.Proofs.MonoGlueEquiv
 import Sparrow.Proofs.SourceGlueEquiv
 import Sparrow.Proofs.DirectivityLemmas
 /-
@@ -86,3 +87,18 @@ theorem initSourceEnergy_directivity
   Sparrow.initSourceEnergy_directivity vis pt g P B W T nIn D src wall dirsIn dirsOut brdf bidx pc wp wn pp att freq s0 s1 s2 s3 s4 s5 s6 s7 s8 s9 s10 s11 s12 p d b hp hb
 
 end Sparrow.Props.C20.SourceGlue
+
+namespace Sparrow.Props.C20.MonoGlue
+open Sparrow Sparrow.Generated.MonoGlue
+
+/-- **`calculate_direct_sound` as translated**: value and bin -/
+theorem calculateDirectSound_eq (r : Nat → ℝ) (rc : Nat → Nat → ℝ) (B : Nat) (att : Option (Nat → ℝ))
+    (g : Option ((Nat → Nat → ℝ) → ℝ → Nat → ℝ)) (freq : Nat → ℝ) (c dt : ℝ) (k b : Nat) (hb : b < B) :
+    (calculateDirectSound r rc B att g freq c dt).1 k b =
+        (match att with
+          | some m => directSound (r k) (m b)
+          | none => 1 / (4 * Real.pi * (r k * r k))) * mgDir g rc freq k b ∧
+    (calculateDirectSound r rc B att g freq c dt).2 k = ToBin.floorNat (r k / c / dt) :=
+  Sparrow.calculateDirectSound_eq r rc B att g freq c dt k b hb
+
+end Sparrow.Props.C20.MonoGlue
